@@ -18,7 +18,7 @@ Open Scope N_scope.
 (* (0) the entry-point table RECORDED from the code on this run (which request
    class, msgtype and service each public parse_* method hands to
    _parse_request; which msgtype each class's signature_check asks for and that
-   must / only_valid_cert are passed through; which root tags
+   the text and must are passed through; which root tags
    <msgtype>_from_string and the SOAP reader accept) is the documented table the
    model is written against *)
 Theorem C10_table_is_documented : rows_eqb request_table documented_table = true.
